@@ -222,4 +222,19 @@ theorem store_wrongtype_inert (c : Ctx) (db : Db) (op : SetOp) (dst f : Bytes) (
   unfold cmdSetAlgebraStore
   simp [h, R.ok]
 
+/-! ### SINTERCARD and its LIMIT clause (known finding D88) -/
+
+/-- how a parsed SINTERCARD splits its words: (numkeys, number of keys, limit) -/
+def sintercardShape : Option Cmd → Option (Int × Nat × Int)
+  | some (.sintercard nk ks lim) => some (nk, ks.length, lim)
+  | _ => none
+
+/-- D88: a trailing `LIMIT <integer>` is read as the option although numkeys makes the two words keys
+    (`SINTERCARD 4 k k limit 1`: Redis intersects the four keys `k k limit 1`) -/
+theorem sintercard_limit_greedy_witness :
+    sintercardShape (parseCmdQ { Quirks.none with sintercardLimitGreedy := true } (sb "SINTERCARD")
+        [sb "4", sb "k", sb "k", sb "limit", sb "1"]) = some (4, 2, 1) ∧
+    sintercardShape (parseCmdQ Quirks.none (sb "SINTERCARD")
+        [sb "4", sb "k", sb "k", sb "limit", sb "1"]) = some (4, 4, 0) := by
+  decide +kernel
 end RedisEmu
